@@ -149,7 +149,7 @@ PROPS.update({
                ("adsr", "MC_Adsr", "MC_Adsr.cfg", T)],
         "traces": [("adsr", "extreme", QT), ("adsr", "durations", QT), ("lfo", "extreme", QT), ("glide", "extreme", QT),
                    ("ribbon", "extreme", QT), ("glide", "rates", QT), ("quant", "hyst", QT), ("quant", "sweep", QT), ("midi", "framing", QT),
-                   ("midi", "short", QT), ("params", "floats", QT), ("params", "ints", QT), ("glide", "sched", QT),
+                   ("midi", "short", QT, {"thorough": 4}), ("params", "floats", QT), ("params", "ints", QT), ("glide", "sched", QT),
                    ("adsr", "random", QT), ("lfo", "freq", QT), ("ribbon", "press", QT), ("voice", "wired", QT)],
         "rule": "calls executed in the overflow-checks + debug-assertions build inside catch_unwind, over the argument "
                 "end points of all six modules; a panic is a logged event no trace action accepts",
